@@ -76,19 +76,21 @@ theorem ckk_len_mismatch_reported (i : Input) (h : i.weights.length ≠ i.parts.
 example : run {} .ckk { parts := [], weights := [1], tolOk := false }
     = ⟨.err (.inputLenMismatch 0 1), .none⟩ := by decide
 
-/-- VnBest evaluates `1 + max(part_ids)` before it validates anything: the
-statement needs every id below `usize::MAX` (`vnbest_id_overflow_panics`). -/
-theorem vnbest_len_mismatch_reported (i : Input) (hid : maxId i.parts < usizeMax)
-    (h : i.weights.length ≠ i.parts.length) :
+/-- VnBest evaluates `max(part_ids) + 1` before it validates anything; the
+addition saturates (commit `b3a1ccd`), so the statement holds for every array
+contents, `usize::MAX` included (`vnbest_unchecked_add_panics_on_mismatch` for the
+code before). -/
+theorem vnbest_len_mismatch_reported (i : Input) (h : i.weights.length ≠ i.parts.length) :
     run {} .vnBest i = ⟨.err (.inputLenMismatch i.parts.length i.weights.length), .none⟩ := by
   prologue_unfold
   prologue_cases
 
 example : run {} .vnBest { parts := [0], weights := [-1, 1] }
     = ⟨.err (.inputLenMismatch 1 2), .none⟩ := by decide
+example : run {} .vnBest { parts := [usizeMax], weights := [] }
+    = ⟨.err (.inputLenMismatch 1 0), .none⟩ := by decide
 
-theorem vnfirst_len_mismatch_reported (i : Input) (hid : maxId i.parts < usizeMax)
-    (h : i.weights.length ≠ i.parts.length) :
+theorem vnfirst_len_mismatch_reported (i : Input) (h : i.weights.length ≠ i.parts.length) :
     run {} .vnFirst i = ⟨.err (.inputLenMismatch i.parts.length i.weights.length), .none⟩ := by
   prologue_unfold
   prologue_cases
@@ -146,8 +148,7 @@ example : run {} .fm { parts := [0, 3], weights := [1], graph := 2 }
 
 /-- A negative weight at any position `k`, lengths fine: `NegativeValues`,
 nothing written. -/
-theorem vnbest_negative (i : Input) (hid : maxId i.parts < usizeMax)
-    (hw : i.weights.length = i.parts.length)
+theorem vnbest_negative (i : Input) (hw : i.weights.length = i.parts.length)
     (k : Nat) (hk : k < i.weights.length) (hneg : i.weights[k] < 0) :
     run {} .vnBest i = ⟨.err .negativeValues, .none⟩ := by
   have hany := any_neg_of_getElem i.weights k hk hneg
@@ -158,10 +159,10 @@ example : run {} .vnBest { parts := [0, 1, 0], weights := [1, 1, -1] }
     = ⟨.err .negativeValues, .none⟩ := by decide
 
 /-- With a length mismatch *and* a negative weight the length mismatch wins. -/
-theorem vnbest_len_beats_negative (i : Input) (hid : maxId i.parts < usizeMax)
+theorem vnbest_len_beats_negative (i : Input)
     (h : i.weights.length ≠ i.parts.length) (_hneg : ∃ w ∈ i.weights, w < 0) :
     run {} .vnBest i = ⟨.err (.inputLenMismatch i.parts.length i.weights.length), .none⟩ :=
-  vnbest_len_mismatch_reported i hid h
+  vnbest_len_mismatch_reported i h
 
 /-- An order above `MAX_ORDER` (the constant extracted from the source):
 `InvalidOrder { max, actual }`, nothing written – whatever the other inputs are. -/
@@ -213,23 +214,23 @@ theorem no_panic (a : Algo) (i : Input) (h : PanicFree a i) (s : PanicSite) :
 
 example : PanicFree .fm { parts := [], weights := [], graph := 0 } := trivial
 example : PanicFree .vnBest { parts := [0, 3], weights := [1] } := by
-  show maxId [0, 3] < usizeMax
+  show maxId [0, 3] < usizeMax ∨ _
   decide
 
 /-- The generated guard lists are complete decision lists: they end in `body`. -/
 theorem never_falls_off (a : Algo) (i : Input) : (run {} a i).out ≠ .fellOff := by
   cases a <;> prologue_unfold <;> prologue_cases
 
-/-! ## Findings: the inputs excluded by `PanicFree` do panic -/
+/-! ## Observations outside the property's claim: the inputs excluded by `PanicFree` do panic -/
 
-/-- VnBest/VnFirst compute `1 + max(part_ids)` in `partition()` *before* the
-length check: an id equal to `usize::MAX` panics (overflow checks on) instead
-of `InputLenMismatch`. -/
-theorem vnbest_id_overflow_panics :
-    run {} .vnBest { parts := [usizeMax], weights := [] } = ⟨.panic .addOverflow, .none⟩ := by decide
-theorem vnfirst_id_overflow_panics :
-    run {} .vnFirst { parts := [usizeMax], weights := [] } = ⟨.panic .addOverflow, .none⟩ := by decide
-/-- ArcSwap does the same addition after its checks: valid lengths only. -/
+/-- An id of `usize::MAX` with *valid* lengths (not a violation the property
+lists): `part_count` saturates at `usize::MAX`, and `compute_parts_load`'s
+`debug_assert!(max < num_parts)` fails. -/
+theorem vn_id_max_valid_lengths_panics :
+    run {} .vnBest { parts := [usizeMax], weights := [1] } = ⟨.panic .debugAssert, .none⟩ ∧
+    run {} .vnFirst { parts := [usizeMax], weights := [1] } = ⟨.panic .debugAssert, .none⟩ := by decide
+/-- ArcSwap computes the plain `1 + max(part_ids)` *after* its checks: an id of
+`usize::MAX` overflows with valid lengths only; a mismatch is still reported. -/
 theorem arcswap_id_overflow_panics :
     run {} .arcSwap { parts := [usizeMax], weights := [1], graph := 1 } = ⟨.panic .addOverflow, .none⟩ ∧
     run {} .arcSwap { parts := [usizeMax], weights := [], graph := 1 }
@@ -280,6 +281,16 @@ theorem hilbert_empty_array_ok (i : Input) (hp : i.parts = []) :
 
 /-! ## Regression: the guard order of the pinned upstream code (defect D10) -/
 
+/-- VnBest / VnFirst with the plain `1 + max(part_ids)` (before commit
+`b3a1ccd`): evaluated before the length check, an id of `usize::MAX` panics
+(overflow checks on) instead of `InputLenMismatch`. -/
+theorem vnbest_unchecked_add_panics_on_mismatch :
+    run { uncheckedVnPartCount := true } .vnBest { parts := [usizeMax], weights := [] }
+      = ⟨.panic .addOverflow, .none⟩ := by decide
+theorem vnfirst_unchecked_add_panics_on_mismatch :
+    run { uncheckedVnPartCount := true } .vnFirst { parts := [0, usizeMax], weights := [1] }
+      = ⟨.panic .addOverflow, .none⟩ := by decide
+
 /-- Greedy, old order: single-part shortcut first – mismatched input, array
 filled, `Ok`. -/
 theorem greedy_old_order_writes_on_mismatch :
@@ -328,8 +339,7 @@ end Coupe.Prologue
 #print axioms Coupe.Prologue.failure_means_untouched_any_order
 #print axioms Coupe.Prologue.no_panic
 #print axioms Coupe.Prologue.never_falls_off
-#print axioms Coupe.Prologue.vnbest_id_overflow_panics
-#print axioms Coupe.Prologue.vnfirst_id_overflow_panics
+#print axioms Coupe.Prologue.vn_id_max_valid_lengths_panics
 #print axioms Coupe.Prologue.arcswap_id_overflow_panics
 #print axioms Coupe.Prologue.ckk_tolerance_panics
 #print axioms Coupe.Prologue.hilbert_empty_points_panics
@@ -337,6 +347,8 @@ end Coupe.Prologue
 #print axioms Coupe.Prologue.kk_trivial_fills
 #print axioms Coupe.Prologue.empty_input_ok
 #print axioms Coupe.Prologue.hilbert_empty_array_ok
+#print axioms Coupe.Prologue.vnbest_unchecked_add_panics_on_mismatch
+#print axioms Coupe.Prologue.vnfirst_unchecked_add_panics_on_mismatch
 #print axioms Coupe.Prologue.greedy_old_order_writes_on_mismatch
 #print axioms Coupe.Prologue.kk_old_order_ok_on_mismatch
 #print axioms Coupe.Prologue.vnbest_old_order_ok_on_mismatch
